@@ -10,10 +10,8 @@ NOTE = "Trusts go/types + go/ssa (x/tools v0.29.0), the rule tables in /verif/ch
 
 NOT_APPLICABLE = {
     "C02": "Iterator positioning is a function of runtime keys/bounds and the iterPos state machine; no clause is visible in the shape of the code without re-deriving the algorithm (value-level).",
-    "C09": "The masking rule s <= r < p is three comparisons on runtime suffixes; deciding it needs the comparer's semantics (solver territory, different technique family).",
     "C25": "SSTable round trip is value-level over runtime keys and writer options.",
     "C32": "Span fragmentation coverage is a value-level algorithm on runtime spans.",
-    "C33": "Merged iteration over levels is a value-level algorithm on runtime keys/levels.",
     "C35": "Comparer contracts quantify over all byte strings; needs a solver or exhaustive exploration, not static shape.",
 }
 
